@@ -16,7 +16,7 @@ DEPENDS = ['TidalPy/RadialSolver', 'TidalPy/utilities/dimensions', 'TidalPy/util
 MIN_DECISIVE = {'quick': 110, 'thorough': 2500}
 CASE_TIMEOUT = 600
 RULE = ('each case = (relation R1..R6, random 1-4 layer body of solid / static-liquid / dynamic-liquid (w >= 1e-4 only) layers with constant or linearly '
-        'varying profiles, l 2..6, frequency, scale factor a in [1e-2,1e2], integrator pair, requested solution types (tidal / loading / both / loading+free), nondimensionalize value for the reciprocity relation); non-trivial = every member of the pair '
+        'varying profiles, l 2..6, frequency, scale factor a in [1e-2,1e2], integrator pair, requested solution types (tidal / loading / both orders; the free-surface solution has an all-zero boundary vector, so its Love numbers carry no information and are not compared), nondimensionalize value for the reciprocity relation); non-trivial = every member of the pair '
         'succeeded and is stable to 1e3 rtol under a 100x tighter tolerance; distinct by case hash')
 ASSUMPTIONS = ['budget |dL| <= 50 max(rtol) + 10 (delta_conv_a + delta_conv_b); nested refinement additionally 0.01 (dr_max/R)^2 (profiles are interpolated linearly)',
                'uniform refinement of multi-layer bodies is only required to converge (upper layers start one slice above the interface: recorded first-order drift)']
@@ -40,7 +40,7 @@ def gen_cases(tier, seed):
         cases.append({'rel': REL[i % len(REL)], 'kinds': kinds, 'profile': ['const', 'linear'][int(rng.integers(2))], 'l': int(rng.integers(2, 7)),
                       'freq': float(10 ** (rng.uniform(-4, -3) if dyn else rng.uniform(-7, -3))), 'a': float(10 ** rng.uniform(-2, 2)),
                       'R': float(10 ** rng.uniform(5.7, 7.2)), 'nper': int(rng.choice([20, 40, 60])), 'kamata': bool(rng.integers(2)), 'm1': int(rng.integers(3)), 'sub': i, 'seed': seed,
-                      'static_solid': bool(rng.integers(2)), 'sf': [['tidal'], ['loading'], ['tidal', 'loading'], ['loading', 'free']][int(rng.integers(4))], 'nd': bool(rng.integers(2))})
+                      'static_solid': bool(rng.integers(2)), 'sf': [['tidal'], ['loading'], ['tidal', 'loading'], ['loading', 'tidal']][int(rng.integers(4))], 'nd': bool(rng.integers(2))})
     return cases
 
 
@@ -211,11 +211,16 @@ def eval_case(c):
         budget = 50 * rtol + 10 * (Ls[0][1] + Ls[1][1]) + 0.25 * drR ** 2
         cnt['pairs_compared'] += 3
         obs.update(drift_N_2N=d1, drift_2N_4N=d2, drift_4N_8N=d3, budget=budget, dr_over_R=drR, layers=len(layers))
-        if d1 > budget:
+        if len(layers) == 1:
+            # a single layer refined uniformly is a nested refinement: second-order convergence (linear interpolation of the profiles)
+            small = 50 * rtol + 10 * (Ls[0][1] + Ls[1][1] + Ls[2][1] + Ls[3][1])
+            if d2 > d1 / 3.0 + small or d3 > d2 / 3.0 + small or d1 > 100 * drR ** 2 + small:
+                V('R5b-refinement-does-not-converge', f'single-layer refinement drift {d1:.3e} -> {d2:.3e} -> {d3:.3e} (dr/R {drR:.2e}) is not converging at second order')
+        elif d1 > budget:
             # magnitude a one-slice gap can explain: the solutions grow like r^l .. r^(l+1), so starting a layer dr above its
             # interface perturbs them by ~(2l+1) dr/r_interface; allow 3x that, require the last drift not to exceed the first
             r_int = min(base['tops'][:-1]) if len(layers) > 1 else base['r'][-1]
-            gap_scale = 3.0 * (2 * l + 1) * float(np.max(np.diff(base['r']))) / r_int
+            gap_scale = 3.0 * (2 * l + 1) * float(np.max(np.diff(base['r']))) / r_int * max(1.0, float(np.nanmax(np.abs(Ls[0][0]))))
             if len(layers) > 1 and ((d1 <= gap_scale and d3 <= 1.2 * d1 + budget) or d3 <= 0.6 * d1 + budget):
                 V('interface-gap-first-order', f'uniform refinement drifts: |L(2N)-L(N)| = {d1:.3e}, |L(4N)-L(2N)| = {d2:.3e}, |L(8N)-L(4N)| = {d3:.3e} (dr/R = {drR:.2e}); each upper layer starts one slice above its interface')
             else:
